@@ -279,6 +279,27 @@
 //	                        `this`, `is`, …: leanKeywords) gets a trailing underscore — variables, parameters and named results
 //	                        in declare (which also keeps the Lean names of one function distinct), function names in function;
 //	                        structure field names are the preset's (Field.Lean)
+//
+// Additions made for the index-entry parser inside (*Cache).get of cache/cache.go (C05; preset "cacheparse": the
+// statements are cut out and wrapped into `func parseEntrySlice` by harness/cmd/cache/fact.go, cacheParseSource).
+// Every rule is switched on by the preset (Config.ByteArrays / ArrayFill), so every earlier translation is byte-identical:
+//
+//	[N]byte, type T [N]byte Config.ByteArrays: a byte ARRAY (N a constant expression of the subset; also through a file-level
+//	                        defined type such as `type ActionID [HashSize]byte`) is a Lean `Bytes` of length N.  `var buf [N]byte`
+//	                        is `List.replicate N 0`; an array PARAMETER is a Bytes whose length N is a hypothesis of the
+//	                        equivalence theorem (the translation does not check it); arrays are values in Go, so copying,
+//	                        returning and comparing them (`buf != id`: element-wise, the list comparison) need no rule of their own
+//	n, err := hex.Decode(buf[:], src)   Config.ArrayFill: a configured function that stores into its first argument, accepted ONLY
+//	                        in a multi-value assignment / if-init whose first argument is `x[:]` for a LOCAL array variable x (no
+//	                        bounds): `let (x, t) ← GoLib.hexDecodeInto x src` rebinds x with what Decode stored (the slice
+//	                        exists only as this argument, so nothing else sees the store) and t = (n, err); none = the index
+//	                        panic when more bytes are decoded than the array holds.  LIBRARY MEANING (GIV/GoLibCache.lean,
+//	                        trusted, correspondence-tested): the loop of encoding/hex over the model's fromHexChar table
+//	strconv.ParseInt(s, 10, 64)   LIBRARY MEANING `GoLib.strconvParseInt10_64` (only with exactly these two arguments): the model's
+//	                        parseInt 10 64 — (value, nil) or (0, non-nil); Go's clamped value on ErrRange is not modelled
+//	                        (no translated code reads the value when err != nil)
+//	eid, entry := entry[3:3+hexSize], entry[3+hexSize:]   no rule of its own: parallel assignment evaluates both slices of the OLD
+//	                        entry into temporaries, then declares eid and rebinds the parameter entry
 package go2lean
 
 import (
@@ -321,6 +342,7 @@ type Type struct {
 	Name string  // KStruct: Lean structure name
 	Tup  []*Type // KTuple
 	Str  bool    // KBytes: a Go string (same Lean type as []byte; `range` yields runes, not bytes)
+	Arr  string  // KBytes: a byte ARRAY `[N]byte` (Config.ByteArrays): the Lean term of its length N; the value is a Bytes of that length
 }
 
 var (
@@ -401,12 +423,17 @@ type Struct struct {
 }
 
 type Config struct {
-	Prefix  string             // prefix of generated definition names, e.g. "" (namespace is the caller's business)
-	Lib     map[string]LibFn   // "bytes.HasPrefix" → …
-	Globals map[string]Global  // package-level identifiers → Lean term
-	Structs map[string]*Struct // Go type name → structure
-	Fuel    map[string]string  // "<func>#<n>" → Lean Nat expression over the variables in scope; default: sum of the lengths of all Bytes variables + 2
-	Rename  map[string]string  // Go function name → Lean name (default: the same)
+	// ByteArrays: `[N]byte` (and a defined type `type T [N]byte`) is a Bytes of length N, see the package comment.
+	ByteArrays bool
+	// ArrayFill: functions `f(dst, src []byte) (…)` that store into dst, allowed only as `… := f(x[:], src)` for a local
+	// byte array x.  The Lean function takes the array and the source and returns Option (array × Ret).
+	ArrayFill map[string]LibFn
+	Prefix    string             // prefix of generated definition names, e.g. "" (namespace is the caller's business)
+	Lib       map[string]LibFn   // "bytes.HasPrefix" → …
+	Globals   map[string]Global  // package-level identifiers → Lean term
+	Structs   map[string]*Struct // Go type name → structure
+	Fuel      map[string]string  // "<func>#<n>" → Lean Nat expression over the variables in scope; default: sum of the lengths of all Bytes variables + 2
+	Rename    map[string]string  // Go function name → Lean name (default: the same)
 	// ExtraParams are prepended to every generated definition (and passed along): what the receiver
 	// or the environment contributes, e.g. `(env : Env)`; Lib entries may mention them by name.
 	ExtraParams []Param
@@ -692,6 +719,11 @@ func (t *tr) typeExpr(e ast.Expr) *Type {
 		if u := t.definedType(v.Name); u != nil { // `type pathKind int`: the underlying type
 			return t.typeExpr(u)
 		}
+		if t.cfg.ByteArrays {
+			if u := t.definedArrayType(v.Name); u != nil { // `type ActionID [HashSize]byte`
+				return t.typeExpr(u)
+			}
+		}
 	case *ast.ArrayType:
 		if v.Len == nil {
 			el := t.typeExpr(v.Elt)
@@ -699,6 +731,13 @@ func (t *tr) typeExpr(e ast.Expr) *Type {
 				return TBytes
 			}
 			return &Type{K: KList, Elem: el}
+		}
+		if el, ok := v.Elt.(*ast.Ident); ok && t.cfg.ByteArrays && (el.Name == "byte" || el.Name == "uint8") && t.lookup(el.Name) == nil {
+			// [N]byte: a Bytes of length N (N a constant expression of the subset)
+			n := t.expr(v.Len)
+			if len(n.pre) == 0 && n.t != nil && n.t.K == KInt {
+				return &Type{K: KBytes, Arr: paren(n.s)}
+			}
 		}
 	case *ast.MapType:
 		if k, ok := v.Key.(*ast.Ident); ok && k.Name == "string" {
@@ -788,6 +827,26 @@ func (t *tr) definedType(name string) ast.Expr {
 	return nil
 }
 
+// definedArrayType: the array type a file-level `type T [N]byte` declares (Config.ByteArrays).
+func (t *tr) definedArrayType(name string) ast.Expr {
+	if t.file == nil {
+		return nil
+	}
+	for _, d := range t.file.Decls {
+		gd, ok := d.(*ast.GenDecl)
+		if !ok || gd.Tok != token.TYPE {
+			continue
+		}
+		for _, sp := range gd.Specs {
+			ts := sp.(*ast.TypeSpec)
+			if at, ok := ts.Type.(*ast.ArrayType); ok && ts.Name.Name == name && !ts.Assign.IsValid() && ts.TypeParams == nil && at.Len != nil {
+				return at
+			}
+		}
+	}
+	return nil
+}
+
 func (t *tr) zero(ty *Type) string {
 	switch ty.K {
 	case KInt, KByte:
@@ -795,6 +854,9 @@ func (t *tr) zero(ty *Type) string {
 	case KBool:
 		return "false"
 	case KBytes, KList, KBuffer, KReader:
+		if ty.K == KBytes && ty.Arr != "" { // the zero array: N zero bytes
+			return "(List.replicate (Int.toNat " + ty.Arr + ") (0 : UInt8))"
+		}
 		return "[]"
 	case KError, KNil, KPtr:
 		return "none"
@@ -2853,6 +2915,12 @@ func (t *tr) assign(a *ast.AssignStmt) []string {
 			t.fail(a, "unsupported map index")
 		}
 		x = val{pre: i.pre, s: fmt.Sprintf("(GoLib.mapGet %s %s, GoLib.mapHas %s %s)", vi.lean, paren(i.s), vi.lean, paren(i.s)), t: &Type{K: KTuple, Tup: []*Type{TInt, TBool}}}
+	} else if vi, src := t.arrayFill(a.Rhs[0]); vi != nil {
+		// n, err := hex.Decode(buf[:], src) into a local byte array: the array is rebound with what Decode stored
+		y := t.expr(src)
+		tmp := t.tmp()
+		pre := append(append([]string{}, y.pre...), fmt.Sprintf("let (%s, %s) ← %s %s %s", vi.lean, tmp, t.cfg.ArrayFill[calleeName(a.Rhs[0].(*ast.CallExpr).Fun)].Lean, vi.lean, paren(y.s)))
+		x = val{pre: pre, s: tmp, t: t.cfg.ArrayFill[calleeName(a.Rhs[0].(*ast.CallExpr).Fun)].Ret}
 	} else {
 		x = t.expr(a.Rhs[0])
 	}
@@ -2872,6 +2940,38 @@ func (t *tr) assign(a *ast.AssignStmt) []string {
 		lines = append(lines, t.assignTo(l, tmps[i], define)...)
 	}
 	return lines
+}
+
+// arrayFill: e is a call `f(x[:], src)` of a configured function that stores into its first argument
+// (Config.ArrayFill: hex.Decode) and x is a LOCAL byte-array variable (`var x [N]byte`): the variable and the
+// source expression.  The slice `x[:]` exists only as this argument, so nothing else can see the store.
+func (t *tr) arrayFill(e ast.Expr) (*varInfo, ast.Expr) {
+	c, ok := e.(*ast.CallExpr)
+	if !ok || len(c.Args) != 2 || t.cfg.ArrayFill == nil {
+		return nil, nil
+	}
+	name := calleeName(c.Fun)
+	if _, ok := t.cfg.ArrayFill[name]; !ok {
+		return nil, nil
+	}
+	if sel, ok := c.Fun.(*ast.SelectorExpr); ok {
+		if id, ok := sel.X.(*ast.Ident); ok && t.lookup(id.Name) != nil {
+			return nil, nil // the package name is shadowed
+		}
+	}
+	se, ok := c.Args[0].(*ast.SliceExpr)
+	if !ok || se.Low != nil || se.High != nil || se.Slice3 {
+		return nil, nil
+	}
+	id, ok := se.X.(*ast.Ident)
+	if !ok {
+		return nil, nil
+	}
+	vi := t.lookup(id.Name)
+	if vi == nil || vi.t == nil || vi.t.K != KBytes || vi.t.Arr == "" {
+		return nil, nil
+	}
+	return vi, c.Args[1]
 }
 
 func isTmp(s string) bool {
